@@ -393,3 +393,27 @@ mod tests {
         assert_parse_partial_data(" \"foo😊\":blah", &[string("foo😊")], 10, ":blah");
     }
 }
+
+#[cfg(abasic_verif)]
+impl DataIterator {
+    /// Canonical text: chunk index, item index, and `location#items` per chunk.
+    pub(crate) fn verif_snapshot(&self) -> String {
+        let chunks = self
+            .chunks
+            .iter()
+            .map(|chunk| {
+                format!(
+                    "{}#{}",
+                    crate::program::verif_location(&chunk.location),
+                    chunk.data.len()
+                )
+            })
+            .collect::<Vec<_>>();
+        format!(
+            "{}.{}/{}",
+            self.chunk_index,
+            self.chunk_item_index,
+            chunks.join(",")
+        )
+    }
+}
